@@ -2,9 +2,11 @@
 proof:  Props/C16.v.  Model/JoinSpec.v is the standard SQL join written from the standard (cross product, three-valued ON, NULL
         extension of unmatched rows, COALESCE select list); Proofs/JoinP1.v proves the reference semantics of natural_join
         (Model/Sem.v sem_join, null keys never match) EQUAL to it for every join type / key specification / tables; JoinP2.v the
-        consequences (rows per partner count, null keys never match, coalescing, Pandas' null-matching merge refuted + guarded);
+        consequences (rows per partner count, null keys never match, coalescing, Pandas' merge with its null-key marker = the SQL
+        join; the plain merge refuted + guarded);
         JoinP3.v / JoinP4.v the executors' emulations (Model/JoinEmul.v): SQLite's RIGHT-as-LEFT rewrite (= the RIGHT join, all key
-        specifications) and FULL-as-key-table rewrite (refuted with NULL keys, proved without).
+        specifications) and FULL-as-key-table rewrite, which engines older than SQLite 3.39 still get (refuted with NULL keys,
+        proved without); the harness samples it by letting sqlite3 report version 3.38.5 while the SQL is written.
 tie:    every backend's real result vs the model of what THAT backend does, inside Coq: Sem.v sem_gen <flavour> for native joins and
         Pandas (execcorr.sem_correspondence), Model/JoinEmulCases.v for the emulations; and JoinSpec.v itself vs the native join.
 oracle: (from the property text) for each backend compare natural_join's result with a HAND-WRITTEN native SQL join executed directly
@@ -15,9 +17,10 @@ import lib, pipes, execcorr as X
 
 N = {"quick": 90, "thorough": 1200}
 BACKENDS = ("pandas", "sqlite", "pgtext", "polars", "pllazy")
+OLD_SQLITE = "sqlite338"          # the SQLite dialect as it writes FULL joins for an engine older than 3.39.0 (the key-table emulation)
 JTS = ("INNER", "LEFT", "RIGHT", "FULL", "CROSS")
 SQLJT = {"INNER": "SInner", "LEFT": "SLeft", "RIGHT": "SRight", "FULL": "SFull", "CROSS": "SCross"}
-MODELLED = ("null_keys_matched", "full_null_key_rows_collapsed")       # deviations that have a faithful model (Sem.v fl_pandas, JoinEmul.v)
+MODELLED = ("full_null_key_rows_collapsed",)       # deviations that have a faithful model (JoinEmul.v sqlite_full_emul)
 
 
 # ------------------------------------------------------------------------------------------------ generation
@@ -269,13 +272,33 @@ def has_dup_key(case):
 
 
 def sig_backend(b):
-    return "polars" if b == "pllazy" else b
+    return "polars" if b == "pllazy" else "sqlite<3.39" if b == OLD_SQLITE else b
+
+
+def backend_result(case, backend):
+    """(frame | None, error | None).  OLD_SQLITE: the SQL text SQLiteModel writes when sqlite3 reports a version below 3.39.0
+    (natural_join_to_near_sql then emulates FULL JOIN), executed on the real engine"""
+    if backend != OLD_SQLITE:
+        return case.result(backend)
+    if backend not in case._res:
+        import sqlite3, data_algebra.SQLite
+        real = sqlite3.sqlite_version_info
+        try:
+            sqlite3.sqlite_version_info = (3, 38, 5)
+            try:
+                sql = data_algebra.SQLite.SQLiteModel().to_sql(case.ops)
+            finally:
+                sqlite3.sqlite_version_info = real
+            case._res[backend] = (X.eval_sql(case.ops, case.frames, "sqlite", sql=sql), None)
+        except Exception as e:            # noqa
+            case._res[backend] = (None, f"{type(e).__name__}: {str(e)[:160]}")
+    return case._res[backend]
 
 
 def oracle(case, backend, native=None):
     """None, or (what, cause, extra) when `backend`'s natural_join does not return the rows of the native SQL join"""
     native = native or native_join(case)
-    res, err = case.result(backend)
+    res, err = backend_result(case, backend)
     if res is None:
         cls = (err or "").split(":")[0]
         return (f"{backend}: natural_join(jointype={case.jt!r}, on={case.script['on']!r}) raised {err}", "raises", {"error": cls})
@@ -287,7 +310,7 @@ def oracle(case, backend, native=None):
     if d == "rows":
         if backend == "pandas" and same_bag(cols, rows, *py_join(case, null_match=True)) is None:
             cause = "null_keys_matched"
-        elif backend == "sqlite" and case.jt == "FULL" and case.on_a and case.on_a == case.on_b and same_bag(cols, rows, *py_sqlite_full(case)) is None:
+        elif backend in ("sqlite", OLD_SQLITE) and case.jt == "FULL" and case.on_a and case.on_a == case.on_b and same_bag(cols, rows, *py_sqlite_full(case)) is None:
             cause = "full_null_key_rows_collapsed"
         elif backend in ("polars", "pllazy") and case.jt == "FULL" and same_bag(cols, rows, *py_join(case, polars_full=True)) is None:
             cause = "full_right_only_keys_null"
@@ -383,7 +406,7 @@ def run(chk):
                        "PostgreSQL is represented by its dialect's SQL text executed on SQLite 3.40.1"]
     chk.cov["rule"] = ("one natural_join of two tables: join type in INNER/LEFT/RIGHT/FULL/CROSS x key spec in {one same-named key, two keys, differently named key, "
                        "mixed, empty `on`, a key name that is also a non-key column of the other side} x key type int/str/float x key null rate 0..0.4 x 0..6 rows (8% empty, "
-                       "small key domain => duplicate keys, 30% a duplicated row) x 0..2 shared non-key columns with nulls on the left x shuffled column order; "
+                       "small key domain => duplicate keys, 30% a duplicated row) x 0..2 shared non-key columns with nulls on the left x shuffled column order; five backends, and for FULL joins also the SQL the SQLite dialect writes for an engine older than 3.39 (its FULL-join emulation); "
                        "non-trivial = a null or duplicate key, or a shared non-key column; distinct by script + tables")
     cases = load_corpus(chk)
     ncorpus = len(cases)
@@ -414,8 +437,8 @@ def run(chk):
             chk.corr_break("the hand-written native join failed to execute", {"case": c.json(), "sql": native_sql(c), "error": repr(e)})
             continue
         emul_terms.append(jcase_term(c, "(KSpec %s)" % SQLJT[c.jt], native)); emul_index.append((c, "native", native))
-        for b in BACKENDS:
-            res, err = c.result(b)
+        for b in BACKENDS + ((OLD_SQLITE,) if c.jt == "FULL" else ()):
+            res, err = backend_result(c, b)
             o = oracle(c, b, native)
             oracle_counts["compared"] += 1
             if res is None:
@@ -440,14 +463,14 @@ def run(chk):
                     nat2 = native_join(small)
                     rep = {"kind": "impl-violation", "case": small.json(), "backend": b, "cause": cause, "why": o2[0], "native_sql": native_sql(small),
                            "native_join": {"columns": nat2[0], "rows": [list(r) for r in nat2[1]]},
-                           "observed": None if small.result(b)[0] is None else pipes.frame_to_json(small.result(b)[0]), "error": small.result(b)[1],
+                           "observed": None if backend_result(small, b)[0] is None else pipes.frame_to_json(backend_result(small, b)[0]), "error": backend_result(small, b)[1],
                            "signature": signature(small, b, cause, extra)}
                     chk.impl_violation(o2[0], rep, sig)
             # ---- correspondence: which model speaks for this backend on this join
             emul = None
             if b == "sqlite" and c.jt == "RIGHT":
                 emul = "KSqliteRight"
-            elif b == "sqlite" and c.jt == "FULL":
+            elif b == OLD_SQLITE:
                 emul = "KSqliteFull"
             if emul is not None:
                 if o is not None and o[1] == "columns":
@@ -482,7 +505,7 @@ def run(chk):
         if b == "native":
             chk.corr_break("Model/JoinSpec.v and SQLite's native join disagree", {"case": c.json(), "sql": native_sql(c), "native": [list(r) for r in res[1]]})
         else:
-            chk.corr_break(f"Model/JoinEmul.v and the {b} backend disagree on a {c.jt} natural_join", X.describe(c, b, res, c.result(b)[1]))
+            chk.corr_break(f"Model/JoinEmul.v and the {b} backend disagree on a {c.jt} natural_join", X.describe(c, b, res, backend_result(c, b)[1]))
     if (getattr(chk, "pending_breaks", None) or not getattr(chk, "proof_ok", True)) and not any(v[2] for v in chk.violations):
         search_failing_input(chk, rng, 400 if chk.tier == "quick" else 3000)
 
@@ -498,7 +521,7 @@ def search_failing_input(chk, rng, n):
             native = native_join(c)
         except Exception:
             continue
-        for b in BACKENDS:
+        for b in BACKENDS + ((OLD_SQLITE,) if c.jt == "FULL" else ()):
             o = oracle(c, b, native)
             if o is None:
                 continue
@@ -526,7 +549,7 @@ def replay(path):
     o = oracle(c, b)
     print("native SQL:", native_sql(c))
     print("native rows:", native_join(c))
-    res, err = c.result(b)
+    res, err = backend_result(c, b)
     print(f"{b}:", err if res is None else frame_rows(res))
     print(o[0] if o else "ok")
     return 1 if o else 0
